@@ -8,8 +8,8 @@ L1_NOTE = ("Trusted: TLC 1.8 + CommunityModules Json; go-pfcp as the codec of th
            "table behaviour is re-checked on every step); the abstraction function of the L1 executor. Exhaustive only within the "
            "constants recorded in the evidence file; beyond them seeded random histories.")
 CLAIMS = {
- "C01": ("pfcp-l1", "§6 C01", "Monitor (Mon.tla: VCalls/VTable) over ghost state built from requests and data-plane results: call scoping, ownership of every installed rule, clean session end incl. failed and failed-after-effect creates. TLC checks the ideal model against it exhaustively (bounded), every edge of that graph and seeded random histories are executed on the real PfcpServer with a model data plane and the recorded traces are validated by TLC."),
- "C04": ("pfcp-l1", "§6 C04", "Monitor: UP SEID non-zero and unique among live sessions, request accepted iff its SEID addresses a live session, 'context not found' + SEID 0 + no side effect otherwise (literal SEIDs over the 64-bit range), re-issue only when no rule of the previous holder remains, free-list sanity from the loop-owned snapshot."),
+ "C01": ("pfcp-l1", "§6 C01", "Monitor (Mon.tla: VCalls/VTable) over ghost state built from requests and data-plane results: call scoping, ownership of every installed rule, clean session end incl. failed and failed-after-effect creates. TLC checks the ideal model against it exhaustively (bounded), every edge of that graph and seeded random histories are executed on the real PfcpServer with a model data plane and the recorded traces are validated by TLC. The same statement is decided at the kernel boundary (MonL2!VKernel): with the real gtp5g driver on the simulated kernel the module's rule tables after every step must equal the rules requested by live sessions; random walks of the ideal model (tlc -simulate) add paths far beyond the exhaustive bound."),
+ "C04": ("pfcp-l1", "§6 C04", "Monitor: UP SEID non-zero and unique among live sessions, request accepted iff its SEID addresses a live session, 'context not found' + SEID 0 + no side effect otherwise (literal SEIDs over the 64-bit range), re-issue only when no rule of the previous holder remains, free-list sanity from the loop-owned snapshot. The allocator on its own (SeidAlloc.tla) has an inductive invariant discharged by Apalache (issuing part of the statement for histories of any length); MC_Upf checks that the ideal model's allocator refines it (AllocRefines) and lock-step ties slots / free list to LocalNode after every step."),
  "C05": ("pfcp-l1", "§6 C05", "Monitor: every data-plane call tagged with the addressed session's SEID, session table after each step equals the ghost (bystanders untouched), re-association ends exactly the node's sessions, SEID-0 answer ends exactly the session matching control-plane SEID and peer; rule ids and CP-SEIDs collide on purpose."),
  "C06": ("pfcp-l1", "§6 C06", "Monitor over ghost rx table: a copy with a known (peer, sequence) causes no data-plane call, no session change and exactly the byte-identical cached response (or nothing); other requests are executed; retention expiry (injected) releases the bookkeeping (loop-owned snapshot)."),
  "C08": ("pfcp-l1", "§6 C08", "Monitor: response to the source address with the request's sequence number, peer's SEID or 0+'context not found', node id / UP F-SEID / created-PDR list in the Establishment Response, no effect for requests answered with an error or not at all, one recovery time stamp."),
@@ -17,7 +17,7 @@ CLAIMS = {
  "C10": ("pfcp-l1", "§6 C10", "Monitor: every usage report produced by the model data plane (notification, query, removal) for a live session and known URR appears exactly once, to the owning node, with the peer's SEID, with all measured values (64-bit spread tokens) and the measurement IEs selected by method / MNOP; unknown sessions/URRs dropped without disturbing the batch. Kernel multicast decoding is covered at L2."),
  "C11": ("pfcp-l1", "§6 C11", "Monitor: ghost counter per (session, URR incarnation); every usage-report IE in any of the three carriers must carry the counter's value in emission order."),
  "C12": ("pfcp-l1", "§6 C12", "Monitor: ghost PDR-URR relation from the Create/Update/Remove PDR IEs; the response must contain exactly one termination report per URR removed or un-referenced by the request and one immediate report per Query URR."),
- "C14": ("pure-l0", "§6 C14", "GtpuEnc.tla: reference G-PDU header for flags 0x34 plus an independent well-formedness reading of the statement; TLC checks the reference against that reading for QFI 0..63 x PDU type 0..15 x with/without extension x TEID and payload-length classes and prints every state as a test vector; the real encoder is evaluated on all of them and on seeded random vectors, TLC validates each recorded packet against the reference."),
+ "C14": ("pure-l0", "§6 C14", "GtpuEnc.tla: reference G-PDU header for flags 0x34 plus an independent well-formedness reading of the statement; TLC checks the reference against that reading for QFI 0..63 x PDU type 0..15 x with/without extension x TEID and payload-length classes and prints every state as a test vector; the real encoder is evaluated on all of them and on seeded random vectors, TLC validates each recorded packet against the reference. The packets the full stack really re-injects (Gtp5g.WritePacket on BUFF->FORW) are read at simulated gNB sockets by an independent decoder that follows the flags and judged by MonL2!VGpdu (well-formed, T-PDU = a packet handed up, PDU Session Container / QFI of the flow)."),
  "C16": ("pure-l0", "§6 C16", "FlowDesc.tla: what an IPFilterRule denotes (octet-wise prefix masking, port ranges, uplink exchange); TLC enumerates abstract rules per grammar dimension (all protocols, prefix lengths 0..32, port lists of 0..3 items); rendered strings (varied spacing) go through the real parser and the real netlink encoder, the packed attributes are read back by an independent walker, TLC validates both results; near-miss and random strings must not fault."),
  "C19": ("pure-l0", "§6 C19", "Flags.tla: the four bit tables transcribed from TS 29.244; TLC enumerates the words (all 1-/2-octet apply-action words, reporting triggers, usage-report triggers, cause mapping, volume flags x MNOP) and checks the table round-trip; the real decoders/encoders/accessors are evaluated on every word, TLC validates what they answered."),
  "C20": ("pure-l0", "§6 C20", "Config.tla: accept/reject/silent verdict over the fault lattice of the configuration document; TLC enumerates all documents with up to 2 (thorough: 3) simultaneous faults, rendered YAML goes through the real ReadConfig, TLC validates acceptance, absence of a partially initialised object and unchanged values. The gtp5g version window is decided against the simulated netlink endpoint (second part of this check)."),
